@@ -9,6 +9,8 @@ from __future__ import annotations
 
 import gc
 import os
+
+import numpy as np
 import shutil
 from collections import Counter
 
@@ -97,6 +99,7 @@ class StoreSim:
         self.iters: dict = {}            # live iterators: id -> {it, sess, pos, done}
         self.gc_lazy = False             # True: no collection between operations (garbage accumulates)
         self.held: list = []             # (sid, idx, trajectory object) kept like a caller would
+        self.zombies: list = []          # closed store objects the caller still holds
         self.fsfaults = None             # installed by the fault engine
         self._install_clock()
 
@@ -120,7 +123,7 @@ class StoreSim:
         return os.path.join(self.sandbox, where, name) if where else os.path.join(self.sandbox, name)
 
     def fpath(self, f: MFile) -> str:
-        return self.path(os.path.basename(f.name), f.where) if f.where else self.path(f.name)
+        return self.path(os.path.basename(f.alias or f.name), f.where) if f.where else self.path(f.name)
 
     def apath(self, f: MFile, aname: str) -> str:
         w = f.assoc_where.get(aname, '')
@@ -147,6 +150,8 @@ class StoreSim:
                 props = ['C08', 'C09']
         if code.startswith('reject.') and features.get('kind') in ID_KINDS:
             props = ['C10', 'C08']
+        if code.startswith('reject.') and features.get('kind') == 'file_exists':
+            props = ['C10', 'C07']   # the earlier additions to that path are lost: "the n-th trajectory ever added"
         if code.startswith('reject.') and features.get('kind') in ('cache_overflow', 'oversize'):
             props = ['C10', 'C07']   # a refusal by the cache is also C07's "refuses the addition
         raise OracleFailure({
@@ -337,6 +342,8 @@ class StoreSim:
     def step(self, op: dict) -> bool:
         """Execute one op.  Returns False if skipped (precondition failed)."""
         self.step_no = len(self.ops_done)
+        if not G.late_registered and op['op'] != 'register_late' and 'vx_late' in repr(op):
+            return False    # uses a field set that this history has not registered (yet)
         fn = getattr(self, 'op_' + op['op'])
         rec = dict(op)
         rec.pop('res', None)
@@ -456,12 +463,25 @@ class StoreSim:
         if sess is None or not sess.writable:
             return None
         spec = op['traj']
+        reused = None
+        if op.get('reuse'):
+            reused = self._reuse_traj(op, sess)
+            if reused is None:
+                return None
+            spec = reused[1]
         valid, new_species = self._spec_fits(sess, spec)
         if not valid:
             return None
         if spec['n'] == 0 and sess.kind != 'mem':
             return None     # zero-point trajectories: in-memory stores only
-        traj = G.build_traj(spec)
+        try:
+            traj = reused[0] if reused else G.build_traj(spec)
+        except Exception as e:  # noqa: BLE001
+            # every field set used is registered and every value fits its field: the library refused
+            # to even hold such a trajectory
+            self.fail('add.valid_refused', f'constructing the trajectory failed: {type(e).__name__}: {e}', sess,
+                      had_prototype_in_cache=False, first=len(self._rows(sess)) == 0,
+                      extra_fieldsets=bool(spec.get('fs')), exc=type(e).__name__, stage='construct')
         snap = G.snapshot(traj)
         if spec['n'] == 0:
             self.probes['add_zero_points'] += 1
@@ -503,6 +523,10 @@ class StoreSim:
         rows.append(snap)
         self._specs(sess).append(dict(spec))
         sess.adds += 1
+        if reused:
+            self.__dict__['last_added'] = None      # the object now sits in this store's cache: hands off
+        elif sess.kind != 'mem':
+            self.__dict__['last_added'] = {'traj': traj, 'spec': dict(spec), 'sid': sess.sid}
         if spec.get('cs', 0) % 3 == 1:
             G.scribble_sources(traj)   # ... or only after it has been added
             self.probes['caller_buffers_reused'] += 1
@@ -530,6 +554,68 @@ class StoreSim:
             self.probes['add_in_append'] += 1
         self._abstract(sess, 'add')
         return idx
+
+    def op_register_late(self, op):
+        """A field set is asked for before the module defining it has been imported (refused),
+        then registered; from then on it is a registered field set like any other."""
+        if G.late_registered:
+            return None
+        from AEIC.storage import FieldSet
+        from AEIC.trajectories.trajectory import Trajectory
+
+        ask = op.get('ask', 'known')
+        try:
+            if ask == 'known':
+                early = 'known' if FieldSet.known('vx_late') else 'unknown'
+            elif ask == 'trajectory':
+                Trajectory(3, fieldsets=['vx_late'])
+                early = 'accepted'
+            else:
+                FieldSet.from_registry('vx_late')
+                early = 'accepted'
+        except Exception as e:  # noqa: BLE001
+            early = 'refused:' + type(e).__name__
+        G.register_late()
+        self.probes['late_fieldset_registered'] += 1
+        return early
+
+    def _reuse_traj(self, op, sess):
+        """The caller adds an object it has added to another (since closed) store before, after
+        giving its species-indexed fields more species.  Returns (trajectory, spec) or None."""
+        from AEIC.types import Species, SpeciesValues
+
+        last = self.__dict__.get('last_added')
+        if last is None or sess.kind == 'mem' or last['sid'] in self.sessions:
+            return None
+        traj, spec = last['traj'], last['spec']
+        f = sess.file
+        if f.exists or self._rows(sess) or f.assoc or spec['n'] == 0:
+            return None
+        if sorted(spec.get('fs', [])) != sorted(f.all_fs):
+            return None
+        new_map = op['reuse']['species']
+        old_map = spec.get('species', {})
+        if set(new_map) != set(old_map) or not new_map:
+            return None
+        rng = np.random.default_rng(op['reuse']['cs'])
+        for fld, names in new_map.items():
+            if not set(old_map[fld]) <= set(names):
+                return None
+        for fld, names in new_map.items():
+            cur = getattr(traj, fld)
+            dims = next(d for x in ['base'] + list(spec.get('fs', [])) for fn_, d, _t, _r in G.FIELDS[x] if fn_ == fld)
+            dt = next(t for x in ['base'] + list(spec.get('fs', [])) for fn_, _d, t, _r in G.FIELDS[x] if fn_ == fld)
+            if 'M' in dims:
+                return None
+            vals = dict(cur.items()) if cur is not None else {}
+            for nme in names:
+                if Species[nme] not in vals:
+                    vals[Species[nme]] = (G._gen_array(rng, dt, spec['n'], False) if 'P' in dims
+                                          else G._gen_scalar(rng, dt, False))
+            setattr(traj, fld, SpeciesValues({Species[x]: vals[Species[x]] for x in names}))
+        spec2 = dict(spec, species={k: list(v) for k, v in new_map.items()})
+        self.probes['add_reused_object_more_species'] += 1
+        return traj, spec2
 
     def op_bulk_add(self, op):
         """Many tiny trajectories in one go (thresholds such as 2**k items)."""
@@ -872,6 +958,46 @@ class StoreSim:
                 sess.file.__dict__['reject_info'] = self.pending_reject[sess.sid]
         self.pending_reject.pop(sess.sid, None)
         self.probes['close'] += 1
+        if op.get('keep') and sess.kind != 'mem':
+            self.zombies.append(sess.store)
+            del self.zombies[:-3]
+        return 'ok'
+
+    def op_close_again(self, op):
+        """close() on an object that is closed already (an explicit close inside a `with` block, a
+        clean-up handler): harmless for that object - and for every other store that is open."""
+        if not self.zombies or not self.sessions:
+            return None
+        z = self.zombies[op['k'] % len(self.zombies)]
+        try:
+            z.close()
+        except Exception:  # noqa: BLE001
+            self.probes['obs_second_close_raised'] += 1     # observation: no property speaks about it
+        self.probes['close_again'] += 1
+        # every store that is open right now still serves what it holds
+        for sess in list(self.sessions.values()):
+            rows = self._rows(sess)
+            if not rows:
+                continue
+            i = (op['k'] * 7 + len(rows) - 1) % len(rows)
+            served = self._served_from(sess, i)
+            try:
+                t = sess.store[i]
+            except Exception as e:  # noqa: BLE001
+                self.fail('get.raised', f'index {i} after another (closed) store was closed again: '
+                          f'{type(e).__name__}: {e}', sess, served_from=served, exc=type(e).__name__)
+            self._check_read(sess, i, t, served, via='get')
+            specs = self._specs(sess)
+            if sess.kind != 'mem' and specs and specs[0].get('fid') is not None:
+                fid = specs[i]['fid']
+                try:
+                    t = sess.store.get_flight(fid)
+                except Exception as e:  # noqa: BLE001
+                    self.fail('lookup.raised', f'get_flight({fid}) after another (closed) store was closed again: '
+                              f'{type(e).__name__}: {e}', sess, stale=False, present=True)
+                if t is None:
+                    self.fail('lookup.missing', f'id {fid} not found after another store was closed again', sess,
+                              stale=False)
         return 'ok'
 
     def _open_kwargs(self, f: MFile, assoc_names: list):
@@ -1075,6 +1201,10 @@ class StoreSim:
             r = sess.store.add(traj)
         except Exception as e:  # noqa: BLE001
             self.probes['reject_' + kind] += 1
+            if kind == 'required_none':
+                afields = {fld for _a, lst in f.assoc for x in lst for fld, *_ in G.FIELDS[x]}
+                if (spec.get('set_none') or [''])[0] in afields:
+                    self.probes['reject_required_none_assoc_field_' + sess.kind + ('_first' if not f.exists else '')] += 1
             self.pending_reject[sess.sid] = info
             self._after_reject(sess, kind, op, info)
             return f'refused:{type(e).__name__}'
@@ -1336,6 +1466,54 @@ class StoreSim:
         self.probes['create_associated'] += 1
         return 'ok'
 
+    def op_assoc_merged(self, op):
+        """create_associated on a merged store: the function is mapped over the trajectories of all
+        parts in order; the store keeps answering afterwards.  (The file written cannot be opened
+        together with the merged directory - files and directories do not mix - so only the mapping
+        itself and the state of the open store are checked.)"""
+        sess = self.sessions.get(op['sess'])
+        if sess is None or sess.kind != 'merged':
+            return None
+        rows = self._rows(sess)
+        fsets = [x for x in op['fs'] if x not in sess.visible_fs]
+        if not rows or not fsets or os.path.exists(self.path(op['file'])):
+            return None
+        from AEIC.storage import FieldSet
+
+        seen = []
+
+        class Data:
+            FIELD_SETS = [FieldSet.from_registry(x) for x in fsets]
+
+        def fn(traj):
+            i = len(seen)
+            seen.append(G.snapshot(traj))
+            donor = G.build_traj(dict(n=len(traj), cs=op['fn_seed'] * 1000 + i, fs=fsets,
+                                      species={fld: ['CO2'] for fld in G.species_fields(fsets)}, fid=None))
+            d = Data()
+            for x in fsets:
+                for fname, *_ in G.FIELDS[x]:
+                    setattr(d, fname, getattr(donor, fname))
+            return d
+
+        try:
+            sess.store.create_associated(self.path(op['file']), fsets, fn)
+        except Exception as e:  # noqa: BLE001
+            self.fail('assoc.refused', f'merged store: {type(e).__name__}: {e}', sess, exc=type(e).__name__)
+        finally:
+            try:
+                os.remove(self.path(op['file']))
+            except OSError:
+                pass
+        vis = self._visible_fields(sess)
+        if len(seen) != len(rows):
+            self.fail('iter.length', f'mapping function called {len(seen)} times for {len(rows)} trajectories', sess)
+        for i, got in enumerate(seen):
+            if G.compare(rows[i], got, vis) is not None:
+                self.fail('iter.order', f'mapping function call #{i} did not get trajectory #{i}', sess)
+        self.probes['create_associated_on_merged'] += 1
+        return len(seen)
+
     # -- merging ---------------------------------------------------------------
     def _merge_inputs(self, op):
         """Resolve the op's inputs to model files; returns (paths, parts, kind, akey) or None."""
@@ -1396,12 +1574,52 @@ class StoreSim:
             have = [os.path.basename(p) for p in paths]
             if want != have:
                 return None
+        links = op.get('links') if kind == 'base' and not op.get('pattern') else None
+        if links:
+            # the inputs are handed over as absolute symbolic links (named differently from their
+            # targets; optionally the targets all have the same file name in per-run directories)
+            if any(f.assoc or f.extra_assoc for f in parts):
+                return None
+            ldir = self.path('links_' + op['out'].split('.')[0])
+            os.makedirs(ldir, exist_ok=True)
+            new_paths = []
+            for i, (f, pth) in enumerate(zip(parts, paths)):
+                target = pth
+                if links.get('same_target_name'):
+                    rdir = os.path.join(self.sandbox, f'runs_{op["out"].split(".")[0]}', str(i))
+                    os.makedirs(rdir, exist_ok=True)
+                    target = os.path.join(rdir, 'part.nc')
+                    os.rename(pth, target)
+                link = os.path.join(ldir, f'in_{i}.nc')
+                os.symlink(os.path.abspath(target), link)
+                new_paths.append(link)
+            paths = new_paths
         try:
             self._merge_call(op, paths)
         except Exception as e:  # noqa: BLE001
             self.fail('merge.refused', f'{type(e).__name__}: {e}', kind=kind, n_inputs=len(parts),
-                      pattern=bool(op.get('pattern')))
+                      pattern=bool(op.get('pattern')), links=bool(links))
+        if links:
+            for i, f in enumerate(parts):
+                f.alias = f'in_{i}.nc'
+            self.probes['merge_through_links'] += 1
         self._merge_commit(op, parts, kind, akey)
+        if links:
+            # the directory announces itself as complete: it must hold every part (C10) in order (C09)
+            from . import store_faults as F
+
+            try:
+                ok = F._audit_merged(self, op['out'], parts, 'mfault.false_complete', kind='links', n_inputs=len(parts))
+            except OracleFailure as of:
+                of.v['props'] = ['C10', 'C09']
+                raise
+            if not ok:
+                try:
+                    self.fail('mfault.false_complete', 'merged directory (inputs given as links) does not open',
+                              kind='links', n_inputs=len(parts))
+                except OracleFailure as of:
+                    of.v['props'] = ['C10', 'C09']
+                    raise
         self.probes['merge_' + kind] += 1
         if op.get('pattern'):
             self.probes['merge_pattern'] += 1
